@@ -1,26 +1,31 @@
 import PsVerif.Driver.Pure
+import PsVerif.Driver.Stateful
 /-
 psdriver: one request per line on stdin, one reply per line on stdout.
 The replies are computed by the SAME definitions the theorems in PsVerif/Props are about.
 -/
-open PsVerif.Driver
+open PsVerif.Driver PsVerif.Model
 
-def handlers : List (List String → Option String) := [handlePure]
+structure DState where
+  rates : RateStore := []
 
-def handleLine (line : String) : String :=
-  let ws := (line.splitOn " ").filter (· ≠ "")
-  match handlers.findSome? (fun h => h ws) with
-  | some r => r
-  | none => "bad-op"
+def step (st : DState) (ws : List String) : DState × String :=
+  match handlePure ws with
+  | some r => (st, r)
+  | none =>
+  match handlePremium st.rates ws with
+  | some (s, r) => ({ st with rates := s }, r)
+  | none => (st, "bad-op")
 
-partial def loop (hin hout : IO.FS.Stream) : IO Unit := do
+partial def loop (hin hout : IO.FS.Stream) (st : DState) : IO Unit := do
   let line ← hin.getLine
   if line.isEmpty then return ()
   let l := String.ofList (line.toList.filter (fun c => c != '\n' && c != '\r'))
-  hout.putStrLn (handleLine l)
-  loop hin hout
+  let (st', out) := step st ((l.splitOn " ").filter (· ≠ ""))
+  hout.putStrLn out
+  loop hin hout st'
 
 def main : IO Unit := do
   let hin ← IO.getStdin
   let hout ← IO.getStdout
-  loop hin hout
+  loop hin hout {}
